@@ -13,7 +13,7 @@ ASSUMPTIONS = ["reference serialiser vf/ref/sighash.py (self-tested against the 
 NSHARDS = {"quick": 32, "thorough": 64}
 BUDGET_S = {"quick": 200, "thorough": 1800}
 MIN_HITS = {
-    'quick': {"flag_01": 468, "flag_02": 447, "flag_03": 438, "flag_81": 430, "flag_82": 445, "flag_83": 436, "idx>=1": 1445, "nonpalindromic_seq": 2610, "sign": 163, "subscript>=65536": 6, "single_without_output": 302, "subscript_has_ab_byte": 997},
+    'quick': {"flag_01": 475, "flag_02": 459, "flag_03": 448, "flag_81": 437, "flag_82": 455, "flag_83": 446, "idx>=1": 1471, "nonpalindromic_seq": 2664, "sign": 163, "subscript>=65536": 6, "single_without_output": 310, "subscript_has_ab_byte": 1003},
     'thorough': {"flag_01": 183307, "flag_03": 183078, "flag_83": 183194, "idx>=1": 566367, "nonpalindromic_seq": 1084120, "sign": 23040, "subscript>=65536": 7},
 }
 
